@@ -412,6 +412,87 @@ def membershipOp (toks : List String) : Option String :=
     | _, _, _, _, _, _, _ => none
   | _ => none
 
+/-- `vf.plan`: the plan stage of `Presentation::verify` on a structural description of schema and
+presentation (ids and labels are opaque hex strings). Fields are separated by `/`, list items by `,`,
+entries by `;`. -/
+def kindOf? : String → Option AC.Verify.Kind
+  | "signature" => some .signature
+  | "revocation" => some .revocation
+  | "equality" => some .equality
+  | "commitment" => some .commitment
+  | "verenc" => some .verenc
+  | "range" => some .range
+  | "membership" => some .membership
+  | "ved" => some .ved
+  | _ => none
+
+def planOp (toks : List String) : Option String :=
+  open AC.Verify in
+  let entries : String → List String := fun s => if s = "-" then [] else s.splitOn ";"
+  let items : String → List String := fun s => if s = "-" then [] else s.splitOn ","
+  match toks with
+  | ["vf.plan", offset, stmts, proofs, disclosed] =>
+    -- statements; for signature statements also the number of messages of the key
+    let stmt? : String → Option (Stmt × Nat) := fun tok =>
+      match tok.splitOn "/" with
+      | ["S", id, n, req, labels, types] =>
+        match n.toNat?, (items types).mapM typeOf? with
+        | some n, some types => some (.sig ⟨id, items req, items labels, types⟩, n)
+        | _, _ => none
+      | ["P", kind, id, refs] =>
+        match kindOf? kind, (items refs).mapM (fun (r : String) => match r.splitOn ":" with
+            | [a, b] => b.toNat?.map fun b => (a, b)
+            | _ => none) with
+        | some kind, some refs => some (.pred ⟨kind, id, refs⟩, 0)
+        | _, _ => none
+      | _ => none
+    match offset.toNat?, (entries stmts).mapM stmt? with
+    | some offset, some sts =>
+      let stmtList := sts.map (·.1)
+      let nOf : String → Option Nat := fun id => (sts.find? (fun s => s.1.id == id && (match s.1 with | .sig _ => true | _ => false))).map (·.2)
+      let proof? : String → Option (String × ProofM Fr) := fun tok =>
+        match tok.splitOn "/" with
+        | [key, kind, innerId, inner, plen] =>
+          match kindOf? kind, (items inner).mapM (fun (e : String) => match e.splitOn ":" with
+              | [i, m] => match i.toNat?, frOf? m with
+                | some i, some m => some (i, m)
+                | _, _ => none
+              | _ => none), plen.toNat? with
+          | some kind, some inner, some plen =>
+            -- which hidden indices the index → response lookup yields, for the key of the statement the proof names
+            let hidden : Option (List Nat) :=
+              match nOf innerId with
+              | some n =>
+                (AC.Sigma.hiddenProofs n offset ((inner.map (·.1)).mergeSort (· ≤ ·)) (List.replicate plen (0 : Fr))).map (·.map (·.1))
+              | none => none
+            some (key, ⟨kind, innerId, inner, hidden⟩)
+          | _, _, _ => none
+        | _ => none
+      let disc? : String → Option (String × List (String × ClaimData × Fr)) := fun tok =>
+        match tok.splitOn "/" with
+        | [id, reps] =>
+          ((items reps).mapM fun (e : String) => match e.splitOn "~" with
+            | [l, c, x] => match claimOf? c, frOf? x with
+              | some c, some x => some (l, c, x)
+              | _, _ => none
+            | _ => none).map fun r => (id, r)
+        | _ => none
+      match (entries proofs).mapM proof?, (entries disclosed).mapM disc? with
+      | some prs, some ds =>
+        let all := ds.flatMap (·.2)
+        let enc : ClaimData → Fr := fun c => ((all.find? (fun e => e.2.1 == c)).map (·.2.2)).getD 0
+        let pres : Pres Fr := ⟨prs, ds.map fun d => (d.1, d.2.map fun e => (e.1, e.2.1))⟩
+        let sigs := stmtList.filterMap fun | .sig s => some s | _ => none
+        let preds := stmtList.filterMap fun | .pred q => some q | _ => none
+        some (match firstSome (planSig enc pres) sigs with
+          | some _ => "plan-err"
+          | none => match firstSome (planPred stmtList pres) preds with
+            | some _ => "plan-err"
+            | none => "plan-ok")
+      | _, _ => none
+    | _, _ => none
+  | _ => none
+
 def answer (d : DState) (line : String) : DState × String :=
   let toks := (line.trimAscii.toString.splitOn " ").filter (· ≠ "")
   match claimsOp toks with
@@ -439,6 +520,9 @@ def answer (d : DState) (line : String) : DState × String :=
   | some r => (d, r)
   | none =>
   match membershipOp toks with
+  | some r => (d, r)
+  | none =>
+  match planOp toks with
   | some r => (d, r)
   | none =>
   match regOp d toks with
